@@ -1962,7 +1962,15 @@ func (p *bprover) prove(facts []bfact, goal blin, at *ssa.BasicBlock, splits int
 		}
 		y := p.linOf(bo.Y)
 		ny, _ := y.scale(-1)
-		if !p.infeasible(append(append([]blin{}, cons...), ny)) { // not(y >= 1) i.e. -y >= 0 infeasible?
+		// the facts about the operands may only be available where the
+		// remainder is computed (a phi operand is substituted there)
+		atDef := func(goal blin) bool {
+			if bo.Block() == nil || p.depth > 3 {
+				return false
+			}
+			return p.proveAt(bo.Block(), goal)
+		}
+		if !p.infeasible(append(append([]blin{}, cons...), ny)) && !atDef(y.addc(-1)) { // y >= 1 ?
 			continue
 		}
 		me := blatom(a)
@@ -1973,7 +1981,7 @@ func (p *bprover) prove(facts []bfact, goal blin, at *ssa.BasicBlock, splits int
 			cons = append(cons, e.addc(-1))
 		}
 		nx, _ := p.linOf(bo.X).scale(-1)
-		if p.infeasible(append(append([]blin{}, cons...), nx.addc(-1))) { // x >= 0
+		if p.infeasible(append(append([]blin{}, cons...), nx.addc(-1))) || atDef(p.linOf(bo.X)) { // x >= 0
 			cons = append(cons, me)
 		}
 		added = true
